@@ -220,18 +220,38 @@ class Repo:
         return self.modules[rel]
 
     def cls(self, name: str, module: Optional[str] = None) -> ClassInfo:
-        cands = self.classes.get(name, [])
+        allc = self.classes.get(name, [])
+        cands = allc
         if module:
-            cands = [c for c in cands if c.module.rel == module or c.module.rel.endswith(module)]
+            cands = [c for c in allc if c.module.rel == module or c.module.rel.endswith(module)]
+            # the class was moved to another module (and is imported back / re-exported): still the same anchor
+            if not cands and len(allc) == 1:
+                cands = allc
         if len(cands) != 1:
             raise AnalysisError(f"anchor class {name!r} (module={module}) resolves to {len(cands)} classes")
         return cands[0]
 
     def fn(self, qual: str, module: Optional[str] = None) -> FuncInfo:
-        """Look up 'Class.method' or 'func' (unique across the tree, or within module)."""
-        cands = self.funcs_by_qual.get(qual, [])
+        """Look up 'Class.method' or 'func' (unique across the tree, or within module).  A method that the named
+        class inherits (pulled up into a base class or a mixin) and a function that moved to another module while
+        staying unique in the tree are still the same anchor."""
+        allc = self.funcs_by_qual.get(qual, [])
+        cands = allc
         if module:
-            cands = [c for c in cands if c.module.rel == module or c.module.rel.endswith(module)]
+            cands = [c for c in allc if c.module.rel == module or c.module.rel.endswith(module)]
+            if not cands and len(allc) == 1:
+                cands = allc
+        if not cands and "." in qual and "<locals>" not in qual:
+            cname, _, meth = qual.rpartition(".")
+            if "." not in cname:
+                owners = self.classes.get(cname, [])
+                if module:
+                    inmod = [c for c in owners if c.module.rel == module or c.module.rel.endswith(module)]
+                    owners = inmod or owners
+                if len(owners) == 1:
+                    f = self.lookup_method(owners[0], meth)
+                    if f is not None:
+                        return f
         if len(cands) != 1:
             raise AnalysisError(f"anchor function {qual!r} (module={module}) resolves to {len(cands)} functions")
         return cands[0]
@@ -321,7 +341,7 @@ class Repo:
                     return st.value
         return None
 
-    def module_assign(self, mod: Module, name: str) -> Optional[ast.AST]:
+    def module_assign(self, mod: Module, name: str, _depth: int = 0) -> Optional[ast.AST]:
         vals = []
         for st in mod.tree.body:
             if isinstance(st, ast.Assign):
@@ -331,6 +351,14 @@ class Repo:
             elif isinstance(st, ast.AnnAssign) and isinstance(st.target, ast.Name) \
                     and st.target.id == name and st.value is not None:
                 vals.append(st.value)
+        if not vals and _depth < 3:
+            # a constant that moved to another module of the repo and is imported back under the same local name
+            tgt = mod.imports.get(name)
+            if tgt:
+                modname, _, attr = tgt.rpartition(".")
+                m2 = self.by_modname.get(modname)
+                if m2 is not None and m2 is not mod:
+                    return self.module_assign(m2, attr, _depth + 1)
         return vals[-1] if vals else None
 
     def loc(self, mod: Module, node: ast.AST) -> str:
